@@ -103,7 +103,7 @@ CHECKS = {
         "execution; every exploration job runs in a fresh subprocess in deterministic order); each thread's results must equal the operations run alone; failing schedules are reproduced in "
         "two more fresh processes. (1b) the string entry points on every edge of a nodelist-transition BFS; (2c) queries interleaved with in-place updates of a live document against an equal "
         "freshly built document, with the queries also parsed once and kept over all update sequences; one kept parsed query per sentence over the whole panel copied into one variable. A supplementary free-running multi-thread pass is sampled, can only raise true alarms and is not counted as coverage.",
-   design="4.C12", note="scheduling points exist only at the cfg-guarded hooks (entry of every Query::process impl, each filter item, between regex compilation and matching); Send + Sync is a type-check side condition (mc/static_assert); bounds: operation alphabet, window length, harness bodies, preemption bound",
+   design="4.C12", note="scheduling points exist only at the cfg-guarded hooks (entry of every Query::process impl, each filter item, between regex compilation and matching); a thread that waits in a synchronisation primitive the code under test brought along is set aside by a stall detector (deadlock = all threads set aside); Send + Sync is a type-check side condition (mc/static_assert); bounds: operation alphabet, window length, harness bodies, preemption bound",
    technique="stateless preemption-bounded schedule exploration of the real code under a controlled scheduler, plus exhaustive operation-history enumeration against a fresh-process baseline"),
  "C13": dict(
    text="For every abstract query of the generated set, every concrete spelling with one deviation from the canonical rendering (and all pairs / triples of deviations for every n-th query, "
